@@ -852,8 +852,9 @@ def bg_nontrivial(si):
     return any(c.cmd == "bgraph" and len(c.O.get("bg_tree", [])) >= 1 for c in si.calls)
 
 
-register("C15", lean_modules=["FsProofs.Properties.C15", "FsProofs.Properties.C15Min", "FsProofs.Properties.C15Cert"],
-         theorems=["Fs.C15.certOk_sound", "Fs.C15.certOk_kruskal", "Fs.C15.kruskal_exec_min_weight", "Fs.C15.kruskal_exec_is_spanning_forest", "Fs.C15.kruskal_min_weight", "Fs.C15.kruskal_minimum_spanning_forest", "Fs.C15.validPerm_sorted", "Fs.C15.exchange",
+register("C15", lean_modules=["FsProofs.Properties.C15", "FsProofs.Properties.C15Min", "FsProofs.Properties.C15Cert", "FsProofs.Properties.C15Connect", "FsProofs.Properties.C15Bottleneck", "FsProofs.Properties.C01MstOrientComplete"],
+         theorems=["Fs.C15.kruskal_exec_bottleneck", "Fs.C15.kruskal_minimax_iff", "Fs.C15Connect.c15_edge_sound", "Fs.C15Connect.c15_edge_unique", "Fs.C15Connect.c15_lowest_pass", "Fs.C15Connect.c15_lowest_pass_exists", "Fs.C15Connect.c15_virtual",
+                   "Fs.C01Mst.orient_spec", "Fs.C01Mst.orient_reached_iff", "Fs.C15.certImpl_sound", "Fs.C15.certOk_sound", "Fs.C15.certOk_kruskal", "Fs.C15.kruskal_exec_min_weight", "Fs.C15.kruskal_exec_is_spanning_forest", "Fs.C15.kruskal_min_weight", "Fs.C15.kruskal_minimum_spanning_forest", "Fs.C15.validPerm_sorted", "Fs.C15.exchange",
                    "Fs.C15.kruskal_sim", "Fs.C15.kruskal_spanning", "Fs.C15.kruskal_forest", "Fs.Kruskal.kruskal_agree", "Fs.Kruskal.kruskal_forest"],
          gen=gen_bgraph, oracles=[oracle.c15], nontrivial=bg_nontrivial, tags=bg_tags,
          sections={"bg_outlets", "bg_edges", "bg_tree"},
@@ -863,7 +864,7 @@ register("C15", lean_modules=["FsProofs.Properties.C15", "FsProofs.Properties.C1
          trusted_base=FLOW_TB + ["std::sort tie order of Kruskal is recomputed by the harness with the same comparator and handed to the model, which validates it is a weight-sorted permutation",
                                  "m_max_low_degree regenerated from basin_graph.hpp"])
 _lvl("C15", "proof",
-     "Theorems about the executed basin-graph model: connect_basins (c15_edge_sound, c15_edge_unique, c15_lowest_pass_exists, c15_lowest_pass, c15_virtual: every real edge joins a node of an inner basin to a neighbouring node of another basin with pass height max of the two elevations; one edge per basin pair; no joining pair is strictly lower than the stored pass; outer basins are linked to the first outer basin = root by virtual edges - for any topology, mask, base levels, under the block structure of the bottom-up order proved in C19); Kruskal: kruskal_sim (the executed array Kruskal accepts exactly what the abstract class-map Kruskal accepts), kruskal_exec_is_spanning_forest, kruskal_exec_min_weight (exchange argument: for a weight-sorted order the tree has minimum total pass elevation among ALL spanning forests of the edge set; validPerm_sorted ties the order the harness hands over), so #tree = #basins - #components; Boruvka (imperative, not reasoned about directly) and the implementation's own output are covered by a CERTIFICATE CHECKER evaluated by the model driver on every basin-graph scenario - certOk on the model's raw tree and certImpl on the edge array and tree REPORTED BY THE C++ - with soundness theorems certOk_sound / certImpl_sound (accepted => spanning forest of minimum total weight among all spanning forests; equal weight multiset as a Kruskal tree) and certOk_kruskal (Kruskal's own tree is always accepted). Orientation away from the root is modelled statement by statement, compared exactly and checked by the oracle (not proved).",
+     "Theorems about the executed basin-graph model: connect_basins (c15_edge_sound, c15_edge_unique, c15_lowest_pass_exists, c15_lowest_pass, c15_virtual: every real edge joins a node of an inner basin to a neighbouring node of another basin with pass height max of the two elevations; one edge per basin pair; no joining pair is strictly lower than the stored pass; outer basins are linked to the first outer basin = root by virtual edges - for any topology, mask, base levels, under the block structure of the bottom-up order proved in C19); Kruskal: kruskal_sim (the executed array Kruskal accepts exactly what the abstract class-map Kruskal accepts), kruskal_exec_is_spanning_forest, kruskal_exec_min_weight (exchange argument: for a weight-sorted order the tree has minimum total pass elevation among ALL spanning forests of the edge set; validPerm_sorted ties the order the harness hands over), so #tree = #basins - #components; Boruvka (imperative, not reasoned about directly) and the implementation's own output are covered by a CERTIFICATE CHECKER evaluated by the model driver on every basin-graph scenario - certOk on the model's raw tree and certImpl on the edge array and tree REPORTED BY THE C++ - with soundness theorems certOk_sound / certImpl_sound (accepted => spanning forest of minimum total weight among all spanning forests; equal weight multiset as a Kruskal tree) and certOk_kruskal (Kruskal's own tree is always accepted). kruskal_exec_bottleneck / kruskal_minimax_iff (C15Bottleneck.lean): two basins joined by passes of height <= b in the basin graph are joined by TREE passes of height <= b (the tree is a minimax / bottleneck tree - what makes the filled level the spill level). Orientation: orient_spec (the executed depth-first orientation returns, for a forest, an arborescence from the root: every returned edge is the original or its flip, each reached basin is the head of exactly one edge, depth(head) = depth(tail) + 1, the root is never a head) and orient_reached_iff (reached = connected to the root in the tree).",
      "Lean 4 fold-invariant proof (connect_basins) + simulation + exchange-argument minimality proof + proved-sound certificate checker run on model and implementation outputs + exact correspondence of connect/Kruskal/Boruvka/orient + independent MST-weight oracle")
 
 
@@ -1070,8 +1071,8 @@ def adi_tags(si):
     return sorted(set(t))
 
 
-register("C14", lean_modules=["FsProofs.Properties.C14", "FsProofs.Properties.C14E2E"],
-         theorems=["Fs.C14.erode_spec", "Fs.C14.erode_border_zero", "Fs.C14.halfStep_spec", "Fs.C14.halfStep_ne_none", "Fs.C14.erode_isSome_array", "Fs.C14.scalar_eq_uniform", "Fs.C14.erode_linear", "Fs.C14.thomas_linear",
+register("C14", lean_modules=["FsProofs.Properties.C14", "FsProofs.Properties.C14E2E", "FsProofs.Properties.C14Unique"],
+         theorems=["Fs.C14.erode_exists_unique", "Fs.C14.erode_determined", "Fs.C14.erode_determined_array", "Fs.C14.erode_determined_scalar", "Fs.C14.tridiag_unique", "Fs.C14.halfStepSpec_unique", "Fs.C14.secondHalfStepSpec_unique", "Fs.C14.erode_spec", "Fs.C14.erode_border_zero", "Fs.C14.halfStep_spec", "Fs.C14.halfStep_ne_none", "Fs.C14.erode_isSome_array", "Fs.C14.scalar_eq_uniform", "Fs.C14.erode_linear", "Fs.C14.thomas_linear",
                    "Fs.C14.thomas_solves", "Fs.C14.thomas_some", "Fs.C14.solveRow_eq", "Fs.C14.solveRow_isSome", "Fs.C14.solveRow_equations",
                    "Fs.C14.adi_pivots_ne_zero", "Fs.C14.factorsScalar_mid", "Fs.C14.factorsCol_mid", "Fs.C14.factorsRow_mid", "Fs.C14.factorsCol_nonneg"],
          gen=gen_adi, oracles=[oracle.c14], nontrivial=adi_nontrivial, tags=adi_tags,
@@ -1080,7 +1081,7 @@ register("C14", lean_modules=["FsProofs.Properties.C14", "FsProofs.Properties.C1
          trusted_base=["ADI theorems are over a field (exact arithmetic); rounding is covered by the bit-exact correspondence and the oracle's condition-number-scaled tolerance",
                        "xtensor expression evaluation order mirrored by hand in Fs.Adi (tied by bit-exact comparison)"])
 _lvl("C14", "proof",
-     "END-TO-END theorems about the executed Fs.Adi.erode over an arbitrary ordered field: erode_spec (the returned erosion is elevation minus the result of two half steps, each satisfying HalfStepSpec: border rows/columns copied and at every interior node the Peaceman-Rachford equation -(f0 dt) x(c-1) + (1 + 2 f1 dt) x(c) - (f2 dt) x(c+1) = (1 - 2 g1 dt) e + g0 dt e(r-1) + g2 dt e(r+1), implicit along columns then - on transposed data - along rows: SecondHalfStepSpec), erode_border_zero (zero erosion on the four borders), halfStep_ne_none / erode_isSome_array (for K >= 0, dt >= 0 every pivot is >= 1: erode never throws), scalar_eq_uniform (scalar diffusivity = uniform array, as functions), erode_linear (the map from elevation to erosion is linear), thomas_solves / thomas_linear, factors*_mid / *_nonneg (face-averaged factor tables: centre = mean of the faces, non-negative). Uniqueness of the half-step solutions (needed to read erode_spec as a full determination) is not proved; the exact-rational direct-solve oracle covers it. The eroder object is kept across steps with set_k_coef in between (state must not leak).",
+     "END-TO-END theorems about the executed Fs.Adi.erode over an arbitrary ordered field: erode_spec (the returned erosion is elevation minus the result of two half steps, each satisfying HalfStepSpec: border rows/columns copied and at every interior node the Peaceman-Rachford equation -(f0 dt) x(c-1) + (1 + 2 f1 dt) x(c) - (f2 dt) x(c+1) = (1 - 2 g1 dt) e + g0 dt e(r-1) + g2 dt e(r+1), implicit along columns then - on transposed data - along rows: SecondHalfStepSpec), erode_border_zero (zero erosion on the four borders), halfStep_ne_none / erode_isSome_array (for K >= 0, dt >= 0 every pivot is >= 1: erode never throws), scalar_eq_uniform (scalar diffusivity = uniform array, as functions), erode_linear (the map from elevation to erosion is linear), thomas_solves / thomas_linear, factors*_mid / *_nonneg (face-averaged factor tables: centre = mean of the faces, non-negative). erode_determined / erode_exists_unique (C14Unique.lean, discrete maximum principle: tridiag_unique, halfStepSpec_unique, secondHalfStepSpec_unique): for K >= 0 and dt >= 0 the executed result is THE solution of the two half-step systems - any fields solving them directly give the same erosion on the grid (shapes with at least 3 nodes per axis). The eroder object is kept across steps with set_k_coef in between (state must not leak).",
      "Lean 4 field proofs (Thomas elimination, diagonal dominance, linearity) composed to the executed two-half-step erode + bit-exact correspondence + exact-rational direct-solve oracle")
 
 
